@@ -230,3 +230,22 @@ REGRESSIONS = [
      "compress": True, "writer": "to_hdf5", "reader": "load_table",
      "generated_by": "vf", "date": "2020-01-02T03:04:05"},
 ]
+
+
+def _large(n, m, dense, reader="load_table"):
+    """Pinned cases with array lengths at / one past a power of two
+    (block-wise writers and readers)."""
+    rows = [[float((i * 31 + j * 17) % 89 + 1) / 4 if dense or
+             (i + j) % 977 == 0 else 0.0 for j in range(m)] for i in range(n)]
+    return {"table": {"obs": ["o%d" % i for i in range(n)],
+                      "samp": ["s%d" % j for j in range(m)], "rows": rows,
+                      "shape": [n, m], "obs_md": None, "samp_md": None,
+                      "type": None, "table_id": None, "form": "dense",
+                      "history": [], "obs_gmd": None, "samp_gmd": None},
+            "compress": n % 2 == 0, "writer": "to_hdf5", "reader": reader,
+            "generated_by": "vf", "date": "2020-01-02T03:04:05"}
+
+
+REGRESSIONS += [_large(4096, 1, False), _large(1, 8192, False, "from_hdf5"),
+                _large(4097, 1, True, "parse_table"), _large(1025, 1, True),
+                _large(257, 255, True), _large(65537, 1, True, "from_hdf5")]
